@@ -157,6 +157,14 @@ func (x *Exec) pass() {
 		x.assume(st, and(sx(">", name, "0"), sx("<=", name, st.allocTop)))
 		x.vals[fv] = Val{T: name}
 	}
+	// captured variables are distinct variables: their cells do not alias each other
+	if len(fn.FreeVars) > 1 {
+		var names []string
+		for _, fv := range fn.FreeVars {
+			names = append(names, "fv_"+sanitize(fv.Name()))
+		}
+		x.assume(st, sx(append([]string{"distinct"}, names...)...))
+	}
 	// receiver is non-nil for pointer-receiver methods under contract (stated assumption: callers
 	// reach the method through a non-nil receiver; a nil receiver panics before any property matters)
 	x.entry.live = st.live
@@ -536,7 +544,10 @@ func (x *Exec) evalClauseDual(c *Clause, target *ssa.Function, cur, old *State, 
 			for _, fv := range target.FreeVars {
 				if fv.Name() == name {
 					a := x.addrOf(x.vals[fv], deref(fv.Type()))
-					args = append(args, dual{Val{T: x.loadAddr(stateView{x, cur}, a)}, Val{T: x.loadAddr(stateView{x, old}, a)}})
+					cv, ov := x.loadAddr(stateView{x, cur}, a), x.loadAddr(stateView{x, old}, a)
+					// the captured variable holds a well-typed value in both states
+					x.assume(cur, and(x.typeInvTop(deref(fv.Type()), cv, cur.allocTop), x.typeInvTop(deref(fv.Type()), ov, old.allocTop)))
+					args = append(args, dual{Val{T: cv}, Val{T: ov}})
 					okfv = true
 					break
 				}
